@@ -225,35 +225,36 @@ class Lin:
 
     def mod(self, m):
         """canonical (self mod m), m a power of two"""
-        terms = []
-        for b, k in self.terms:
-            k2 = k % m
-            if k2 == 0:
-                continue
-            if not isinstance(b, str) and b[0] == "mod" and b[2] % m == 0:
-                # (x mod m2)*k mod m with m | m2 : inline
-                inner = b[1].scale(k2)
-                terms.extend(inner.terms)
-                terms.append(("__const__", inner.c))
-                continue
-            if not isinstance(b, str) and b[0] == "sx" and (1 << b[2]) % m == 0:
-                # sign reinterpretation differs from the value by a multiple of 2^w
-                inner = b[1].scale(k2)
-                terms.extend(inner.terms)
-                terms.append(("__const__", inner.c))
-                continue
-            terms.append((b, k2))
-        c = self.c
-        real = []
-        for b, k in terms:
-            if b == "__const__":
-                c += k
-            else:
-                real.append((b, k))
-        inner = Lin(c % m, tuple((b, k % m) for b, k in real))
-        if inner.is_const():
-            return inner
-        return Lin(0, ((("mod", inner, m), 1),))
+        cur = self
+        for _ in range(16):
+            c = cur.c
+            terms = []
+            again = False
+            for b, k in cur.terms:
+                k2 = k % m
+                if k2 == 0:
+                    continue
+                if not isinstance(b, str) and b[0] == "mod" and b[2] % m == 0:
+                    # (x mod m2)*k mod m with m | m2 : inline x
+                    inner = b[1].scale(k2)
+                    terms.extend(inner.terms)
+                    c += inner.c
+                    again = True
+                    continue
+                if not isinstance(b, str) and b[0] == "sx" and (1 << b[2]) % m == 0:
+                    # the signed reading differs from the value by a multiple of 2^w
+                    inner = b[1].scale(k2)
+                    terms.extend(inner.terms)
+                    c += inner.c
+                    again = True
+                    continue
+                terms.append((b, k2))
+            cur = Lin(c % m, terms)  # merges duplicate bases
+            if not again and all(0 < k < m for _, k in cur.terms):
+                break
+        if cur.is_const():
+            return cur
+        return Lin(0, ((("mod", cur, m), 1),))
 
     def sx(self, w):
         """reinterpret the low w bits as a signed number"""
@@ -267,6 +268,40 @@ class Lin:
             if k == 1 and not isinstance(b, str) and b[0] == "mod" and b[2] == (1 << w):
                 return Lin(0, ((("sx", b[1], w), 1),))
         return Lin(0, ((("sx", inner, w), 1),))
+
+    def interval(self, ranges):
+        lo = hi = self.c
+        for b, k in self.terms:
+            blo, bhi = base_interval(b, ranges)
+            if k >= 0:
+                lo += k * blo
+                hi += k * bhi
+            else:
+                lo += k * bhi
+                hi += k * blo
+        return lo, hi
+
+    def simplify(self, ranges):
+        """drop modulus / sign wrappers that the atom ranges show to be the identity"""
+        out = Lin(self.c)
+        for b, k in self.terms:
+            if isinstance(b, str):
+                out = out.add(Lin(0, ((b, k),)))
+                continue
+            inner = b[1].simplify(ranges)
+            lo, hi = inner.interval(ranges)
+            if b[0] == "mod":
+                if 0 <= lo and hi < b[2]:
+                    out = out.add(inner.scale(k))
+                else:
+                    out = out.add(inner.mod(b[2]).scale(k))
+            else:
+                w = b[2]
+                if -(1 << (w - 1)) <= lo and hi < (1 << (w - 1)):
+                    out = out.add(inner.scale(k))
+                else:
+                    out = out.add(inner.sx(w).scale(k))
+        return out
 
     def eval(self, env):
         """env: atom -> int"""
@@ -294,6 +329,21 @@ def base_pretty(b):
     return f"sx{b[2]}({b[1].pretty()})"
 
 
+def base_interval(b, ranges):
+    if isinstance(b, str):
+        return ranges.get(b, (0, 0xFFFF))
+    if b[0] == "mod":
+        lo, hi = b[1].interval(ranges)
+        if 0 <= lo and hi < b[2]:
+            return lo, hi
+        return 0, b[2] - 1
+    w = b[2]
+    lo, hi = b[1].interval(ranges)
+    if -(1 << (w - 1)) <= lo and hi < (1 << (w - 1)):
+        return lo, hi
+    return -(1 << (w - 1)), (1 << (w - 1)) - 1
+
+
 def base_eval(b, env):
     if isinstance(b, str):
         return env[b]
@@ -309,6 +359,15 @@ def lin_equal_witness(a, b, atom_ranges, limit=4096):
     or ('unknown', None).  The valuations are boundary values of each atom's range."""
     if a == b:
         return ("equal", None)
+    a, b = a.simplify(atom_ranges), b.simplify(atom_ranges)
+    if a == b:
+        return ("equal", None)
+    # outermost modulus: compare the arguments modulo m
+    if len(a.terms) == 1 and len(b.terms) == 1 and a.c == 0 and b.c == 0 and a.terms[0][1] == 1 and b.terms[0][1] == 1:
+        ba, bb = a.terms[0][0], b.terms[0][0]
+        if not isinstance(ba, str) and not isinstance(bb, str) and ba[0] == "mod" and bb[0] == "mod" and ba[2] == bb[2]:
+            if ba[1].mod(ba[2]) == bb[1].mod(bb[2]):
+                return ("equal", None)
     atoms = sorted(a.atoms() | b.atoms())
     cand = []
     for at in atoms:
